@@ -188,6 +188,33 @@ class Client:
         if self.world.on_app_event:
             self.world.on_app_event(self, "closed", result)
 
+    ONE_SHOT_ORDER = ("code", "key", "verifier", "versions")
+
+    def _observe(self, kind):
+        """Book-keeping for 'events are seen in order whatever the timing of
+        the get_*() calls': returns a function to call when this observation
+        fires. An observation of a later event must not fire while one of an
+        earlier event that was requested before it is still pending."""
+        if kind not in self.ONE_SHOT_ORDER:
+            return lambda: None
+        if not hasattr(self, "observations"):
+            self.observations = []
+        rec = [kind, "pending"]
+        self.observations.append(rec)
+        mine = len(self.observations) - 1
+
+        def fired():
+            rec[1] = "fired"
+            rank = self.ONE_SHOT_ORDER.index(kind)
+            for other in self.observations[:mine]:
+                if other[1] == "pending" and \
+                        self.ONE_SHOT_ORDER.index(other[0]) < rank and \
+                        self.world.observation_order_violation is None:
+                    self.world.observation_order_violation = (
+                        self.name, kind, other[0])
+        rec.append(fired)
+        return fired
+
     def _attach(self):
         w = self.w
         for kind, getter in (("welcome", w.get_welcome),
@@ -195,11 +222,21 @@ class Client:
                              ("key", w.get_unverified_key),
                              ("verifier", w.get_verifier),
                              ("versions", w.get_versions)):
+            fired = self._observe(kind)
             d = getter()
-            d.addCallbacks(lambda v, k=kind: self._ev(k, v),
+            d.addCallbacks(lambda v, k=kind, fired=fired: (fired(),
+                                                           self._ev(k, v)),
                            lambda f, k=kind: self._err(k, f))
         if not self.lazy_messages:
-            self._next_message()
+            # a pipelined reader keeps several get_message() Deferreds
+            # outstanding and re-issues one from each callback
+            depth = 1
+            if self.world.opts.get("pipeline"):
+                depth = 1 + self.world.tape.choose(3, "pipeline")
+                if depth > 1:
+                    self.world.sim.note("probe.pipelined_get_message")
+            for _ in range(depth):
+                self._next_message()
 
     def _err(self, kind, f):
         self.saw_failure = True
@@ -283,6 +320,7 @@ class MailboxWorld:
         self.before_op = None       # callable(client, op) just before
         self.extra_ops = None       # {kind: callable(client)}
         self.extra_fault_events = None
+        self.observation_order_violation = None
         self._ka = None
         self.fault_budget = 0
         self.faults_fired = []
@@ -497,11 +535,38 @@ class MailboxWorld:
         elif kind == "helper":
             if c.helper is None:
                 return "skipped"
-            c.call("helper." + op[1], getattr(c.helper, op[1]), *op[2:],
-                   expect=(E.AlreadyChoseNameplateError,
-                           E.AlreadyChoseWordsError,
-                           E.MustChooseNameplateFirstError,
-                           E.KeyFormatError))
+            r = c.call("helper." + op[1], getattr(c.helper, op[1]), *op[2:],
+                       expect=(E.AlreadyChoseNameplateError,
+                               E.AlreadyChoseWordsError,
+                               E.MustChooseNameplateFirstError,
+                               E.KeyFormatError))
+            if op[1] == "when_wordlist_is_available" and r is not None and \
+                    self.opts.get("wordlist_cb"):
+                # a UI with live completion: the moment the wordlist is
+                # there it asks for completions (or the user gives up / has
+                # typed the words already) - from inside the callback
+                act = self.tape.pick(("completions", "completions", "close",
+                                      "words"), "wlcb")
+                peer = [x for x in self.clients if x is not c and
+                        x.code][:1]
+
+                def cb(_, c=c, act=act, peer=peer):
+                    self.sim.note("probe.api_call_from_wordlist_callback")
+                    if act == "completions" or (act == "words" and not peer):
+                        c.call("helper.get_word_completions[wordlist cb]",
+                               c.helper.get_word_completions, "a",
+                               expect=(E.AlreadyChoseWordsError,))
+                    elif act == "close":
+                        if not c.close_called:
+                            c.do_close()
+                    else:
+                        c.call("helper.choose_words[wordlist cb]",
+                               c.helper.choose_words,
+                               peer[0].code.split("-", 1)[1],
+                               expect=(E.AlreadyChoseWordsError,
+                                       E.MustChooseNameplateFirstError))
+                r.addCallback(cb)
+                r.addErrback(lambda f: None)
         elif kind == "derive_key":
             c.call("derive_key", w.derive_key, op[1], op[2],
                    expect=(E.NoKeyError,))
@@ -529,6 +594,7 @@ class MailboxWorld:
                   "versions": w.get_versions, "message": w.get_message}[kind]
         rec = [kind, "pending", None, c.is_closed]
         c.extra_gets.append(rec)
+        obs_fired = c._observe(kind)
         d = c.call("get_" + kind, getter)
         if d is None:
             rec[1] = "raised"
@@ -537,6 +603,7 @@ class MailboxWorld:
         def ok(v):
             rec[1] = "fired"
             rec[2] = v
+            obs_fired()
             if kind == "message":
                 # a message consumed by an extra get_message() still counts
                 c._ev("message", v)
